@@ -43,6 +43,23 @@ CHECKS.update({
    text="Every valid corpus program of both grammars (rules, 2-paths, all present/absent combinations of optional children; thorough 3-paths) in four whitespace layouts and with every alternative lexeme: format+print must not panic, must re-parse without errors to the same structural fingerprint, be idempotent, and be identical across layouts.",
    note="Known finding: programs that leave PHP mode (inline HTML, close tag, halt-compiler tail, shebang) re-parse with extra/missing StmtNop/StmtInlineHtml; ten formatter defects found by this check were repaired.", ref="§C17"),
 })
+CHECKS.update({
+ "C03": dict(cat="model_checking", tech="exhaustive enumeration of LALR-automaton sentences, of all flat operator expressions up to n operators, of if/else nestings and of construct schemas, each replayed on the real parser and compared with independent reference models (LR driver, precedence-climbing operator model, schema table)",
+   text="A: every corpus sentence the reference LR driver accepts (both grammars, all family versions) and every alternative lexeme of every token: zero errors, token texts allowed by the slot vocabulary, keyword case/cast spellings give the same tree. B: every flat expression with <= 3 operators (thorough 4) over the full operator set under 7.4 and 5.6 against an independent operator-precedence model (grouping and rejections). C: ~190 hand-written construct/literal schemas with expected role-labelled trees. D: every brace-less if/else nesting to depth 3 (4). F: 22 version-gated constructs under 10 versions. Programs outside these enumerations are not covered.",
+   note="Trusted: M-syn (mc/synm) as a transcription of the PHP manual. Known findings (scanner rules that need ragel): 0X/0B prefixes, b'x', \"$a->b->c\", <<<A + lone CR; nested short list kind.", ref="§C03"),
+ "C06": dict(cat="model_checking", tech="explicit-state exploration of both LALR automata: every (state, terminal) action cell driven on the real parser and compared with a reference LR driver; exhaustive bracket edits of corpus programs; E-bytes for error shape and callback independence",
+   text="Every (state, terminal) cell of both automata (1 tail; thorough 3): driver-invalid => >= 1 error. Every single-bracket insertion/deletion/truncation of every corpus program whose token string becomes unbalanced => >= 1 error. Zero errors => non-nil root that tiles the source. Every delivered error (also on all E-bytes inputs <= 2/3 symbols) has a message, an in-range position with reference lines that selects a scanner token or the offending byte, and positions are non-decreasing. Trees with and without callback are identical.",
+   note="Trusted: goyacc -v automaton of the current grammar; bracket-balance lemma is re-checked on the rules at run time.", ref="§C06"),
+ "C07": dict(cat="exploration", tech="exhaustive enumeration of statement lists x malformed-statement menu x insertion position x 6 contexts, plus all LR error cells and E-bytes inputs, on the real parser and printer",
+   text="Statement lists S1 [S2 [S3]] over every statement form, in 6 contexts, with each of 16 malformed statements at every boundary: the statements before the error are identical (tokens and positions included) to parsing the prefix alone and the parse reaches the end of input; on every recovered tree (also from all LR error cells and E-bytes inputs) tokens hold source text at increasing offsets and the printed text is exactly those tokens in order plus printer glue.",
+   note="Which statements after the malformed one survive is not demanded.", ref="§C07"),
+ "C08": dict(cat="exploration", tech="exhaustive 1-deviation (thorough 2-deviation) trivia exploration of the LR corpus against the baseline layout's structural fingerprint",
+   text="Every valid corpus program of both grammars: every single gap set to each of 18 trivia (blanks, LF, CRLF, lone CR, all comment styles, deletion), unique comments in every gap, six whole-program layouts (thorough: pairs of neighbouring gaps, nullable combinations, 3-paths) plus 50 hand-written delicate pairs: zero errors and the same structural fingerprint as the baseline.",
+   note="Known findings (need ragel): lone CR between tokens, comments inside __halt_compiler ( ) ;, comment between `;` and `?>`.", ref="§C08"),
+ "C09": dict(cat="exploration", tech="exhaustive enumeration of version pairs, version strings up to n symbols, and all-versions differential parsing of E-bytes/corpus/heredoc inputs",
+   text="All 324 (major, minor) pairs over boundary numbers: accepted iff in 5.0-5.6 or 7.0-7.4 (else nil tree + ErrVersionOutOfRange), Validate agrees, Compare and friends are the numeric order; every version string of <= 3 symbols (thorough 4) over 19 symbols parses iff digits.digits < 2^64; every E-bytes input (<= 2/3 symbols x 15 contexts), corpus program, special and 2496 heredoc shapes gives identical trees and errors within {5.0..5.6}, {7.0..7.2}, {7.3, 7.4, omitted}.",
+   note="", ref="§C09"),
+})
 NA = {}
 
 checks = []
